@@ -11,7 +11,7 @@ package lexer
 //@   loop 2 decreases eof - pos
 //@   loop 3 invariant bounds: 0 <= start && start < pos && pos0 <= pos && pos <= eof && eof == len(usage)
 //@   loop 3 decreases eof - pos
-//@   loop 4 invariant bounds: 0 <= start && start < pos && pos <= eof && eof == len(usage)
+//@   loop 4 invariant bounds: 0 <= start && start < pos && pos <= eof && eof == len(usage) && !closed
 //@   loop 4 decreases eof - pos
 //@   loop 5 invariant bounds: 0 <= start && start < pos && pos <= eof && eof == len(usage)
 //@   loop 5 decreases eof - pos
